@@ -285,3 +285,14 @@ Fixpoint marks_irn (n : irn) : list Z :=
   | NTry b h => flat_map marks_irn b ++ flat_map marks_irn h
   | _ => []
   end.
+
+(* the names an IR node list declares as C locals ([VarDecl] nodes), all depths, textual order *)
+Fixpoint vardecls_irn (n : irn) : list name :=
+  match n with
+  | NVarDecl x => [x]
+  | NIf _ b e => flat_map vardecls_irn b ++ flat_map vardecls_irn e
+  | NFor _ b => flat_map vardecls_irn b
+  | NWhile _ b => flat_map vardecls_irn b
+  | NTry b h => flat_map vardecls_irn b ++ flat_map vardecls_irn h
+  | _ => []
+  end.
